@@ -4,7 +4,7 @@ from sym import Explorer, explore, show, subterms
 from pat import called, canon, is_call, deref_all, agg_variant, const_of, strip_casts
 from pathfacts import PathFacts, IntervalSet, INF
 from mir import natural_loops, callee_name, reachable_from
-from rules import buffers
+from rules import buffers, editing
 from rules.layout import cv
 
 SEL = "jsonpath::selector::Selector::<'a>::"
@@ -37,9 +37,66 @@ def expanded_calls(f, b, sites=False, depth=0, seen=None, stop=()):
     return out if sites else list(dict.fromkeys(out))
 
 
+def r15_6(ctx, run, rule='R15.6'):
+    """What counts as a stand-alone predicate is decided by the parser (it builds Path::Predicate); JsonPath::is_predicate must
+    not narrow that further than the evaluator does: every expression variant Selector::filter_expr evaluates (comparisons,
+    &&/||, exists(..)) has to be reported as a predicate, otherwise select / path_match / path_exists treat it as an ordinary path."""
+    f = ctx.facts
+    fn = "jsonpath::path::JsonPath::<'a>::is_predicate"
+    b = f.bodies.get(fn)
+    if b is None:
+        run.undecided(rule, fn, 'variants', 'function not found (anchor lost)')
+        return
+    loc = f'{b.file}:{b.line}'
+    ad = f.adts.get('jsonpath::path::Expr', {})
+    vs = [v['name'] for v in ad.get('variants', [])]
+    ps, _ = explore(b)
+    narrowed = []
+    plain = 0
+    for q in ps:
+        if q.end[0] != 'return' or not (q.ret[0] == 'const' and q.ret[1] is True):
+            continue
+        inner = [c for c in q.conds if c[0][0] == 'discr' and any(s_[0] == 'downcast' and s_[2] == 'Predicate' for s_ in subterms(c[0]))]
+        if inner:
+            for c in inner:
+                if c[1] == 'eq' and isinstance(c[2], int):
+                    narrowed.append(vs[c[2]] if c[2] < len(vs) else str(c[2]))
+                else:
+                    narrowed.append('?')
+        else:
+            plain += 1
+    if not narrowed and plain:
+        run.proved(rule, fn, 'variants', 'every path whose single step is Path::Predicate is a predicate, whatever its expression', loc)
+        return
+    if not narrowed or '?' in narrowed or plain:
+        run.undecided(rule, fn, 'variants', 'the paths on which is_predicate answers true were not recognised as tests of the Path / Expr variants: not decided', loc)
+        return
+    fb = f.bodies.get("jsonpath::selector::Selector::<'a>::filter_expr")
+    if fb is None:
+        run.undecided(rule, fn, 'variants', f'is_predicate accepts only expressions of variant {sorted(set(narrowed))} and Selector::filter_expr was not found to compare with: not decided', loc)
+        return
+    handled = set()
+    from rules.buffers import is_err_return
+    for q in explore(fb, max_paths=3000)[0]:
+        if q.end[0] != 'return':
+            continue
+        top = [c for c in q.conds if c[0][0] == 'discr' and deref_all(c[0][1])[0] == 'init' and c[1] == 'eq' and isinstance(c[2], int)]
+        if not top:
+            continue
+        direct_err = agg_variant(q.ret) and q.ret[1][2] == 'Err' and len(q.conds) <= 2
+        if not direct_err:
+            handled.add(vs[top[0][2]] if top[0][2] < len(vs) else str(top[0][2]))
+    missing = sorted(handled - set(narrowed))
+    if missing:
+        run.violation(rule, fn, 'variants', f'is_predicate answers true only for expressions of variant {sorted(set(narrowed))}, but the evaluator (Selector::filter_expr) also evaluates {missing} as a boolean: '
+                      f'a stand-alone `exists(..)` is then selected as an ordinary path instead of yielding its truth value', loc)
+    else:
+        run.proved(rule, fn, 'variants', f'is_predicate accepts {sorted(set(narrowed))}, which covers every variant the evaluator handles ({sorted(handled)})', loc)
+
+
 def check(ctx, run):
     f = ctx.facts
-    run.rules_run = ['R15.1', 'R15.2', 'R15.3', 'R15.4']
+    run.rules_run = ['R15.1', 'R15.2', 'R15.3', 'R15.4', 'R15.5', 'R15.6']
     # ---- R15.1 funnel
     entry = ['functions::get_by_path', 'functions::get_by_path_first', 'functions::get_by_path_array', 'functions::path_exists', 'functions::path_match']
     allowed = ('Selector::new', 'Selector::select', 'Selector::exists', 'Selector::predicate_match', 'functions::is_jsonb', 'parser::parse_value', 'Value::to_vec',
@@ -205,15 +262,26 @@ def check(ctx, run):
                     var = [c for c in p.conds if c[0][0] == 'discr' and 'Some' in show(c[0]) and c[1] == 'eq']
                     kinds[var[-1][2] if var else '?'] = v
         okc = False
+        wrong = None
         for vi, v in kinds.items():
             a, c = v[2], v[3]
             if const_of(a) == cv(f, 'CONTAINER_TAG') and 'Container' in show(c):
                 okc = True
+            elif const_of(a) is not None and 'Container' in show(c):
+                wrong = f'a Container position gets the entry word {show(v)[:60]}: its type bits are not CONTAINER_TAG'
+            elif const_of(a) is not None and 'Scalar' in show(c):
+                wrong = f'a Scalar position gets the fixed type bits {const_of(a):#x} instead of the type recorded in the position'
+            elif 'Scalar' in show(a) and 'Container' in show(c) or ('Container' in show(a) and 'Scalar' in show(c)):
+                wrong = f'the entry word {show(v)[:60]} mixes the fields of two different positions'
         if not kinds:
             run.undecided('R15.3', b.path, 'entry-word-value', 'no entry word computed as `tag | length` in a local of the item loop was found: its value is not decided', f'{b.file}:{b.line}')
+        elif wrong:
+            run.violation('R15.3', b.path, 'entry-word-value', wrong, f'{b.file}:{b.line}')
+        elif okc and len(kinds) >= 2:
+            run.proved('R15.3', b.path, 'entry-word-value', 'CONTAINER_TAG | length for containers, type | length for scalars', f'{b.file}:{b.line}')
         else:
-            (run.proved if okc and len(kinds) >= 2 else run.violation)('R15.3', b.path, 'entry-word-value', 'CONTAINER_TAG | length for containers, type | length for scalars' if okc and len(kinds) >= 2 else
-                                                                        f'entry words written: {[show(v)[:60] for v in kinds.values()]}', f'{b.file}:{b.line}')
+            run.undecided('R15.3', b.path, 'entry-word-value', f'entry words computed in the item loop: {[show(v)[:60] for v in kinds.values()]} — not the two `tag | length` forms this rule reads '
+                          '(computed by a helper or in another pass?): their values are not decided here', f'{b.file}:{b.line}')
     # ---- R15.4 predicate consistency
     for m, on_pred, on_plain in (('exists', 'Ok(true)', 'nonempty'), ('predicate_match', 'nonempty', 'Err')):
         b = f.bodies.get(SEL + m)
@@ -275,6 +343,8 @@ def check(ctx, run):
             run.undecided('R15.4', b.path, 'boolean', f'the test "is there a position" was not recognised on the paths of this function (found {sorted(got)}): the words written are not decided', f'{b.file}:{b.line}')
         else:
             (run.proved if ok else run.violation)('R15.4', b.path, 'boolean', 'scalar header + TRUE_TAG iff a position exists, FALSE_TAG otherwise' if ok else f'words written: {got}', f'{b.file}:{b.line}')
+    editing.r07_8(ctx, run, rule='R15.5/R07.8')
+    r15_6(ctx, run)
     return report.finish(run, level='other', explanation=EXPLANATION, assumptions=["A1: valid documents"])
 
 
